@@ -84,6 +84,30 @@ func zzPlanCyclic(p *PlanInput) bool {
 	return c
 }
 
+// summary of hasPlanCycle for the RunPlan unit (hasPlanCycle itself is exercised, unsummarised,
+// by the Validate-vs-spec unit): some title reaches itself along depsByTitle within 3 steps.
+func zzPlanCycleSpec(titles map[string]int, depsByTitle map[string][]string) bool {
+	c := false
+	for a := range titles {
+		for _, b := range depsByTitle[a] {
+			if b == a {
+				c = true
+			}
+			for _, d := range depsByTitle[b] {
+				if d == a {
+					c = true
+				}
+				for _, e := range depsByTitle[d] {
+					if e == a {
+						c = true
+					}
+				}
+			}
+		}
+	}
+	return c
+}
+
 func zzPlanDoc(spec string) *PlanInput {
 	p := &PlanInput{}
 	zzHavoc("plan", p, spec)
@@ -117,7 +141,7 @@ func zzC11Run(spec string) {
 		zzAssert(len(written) == 0, "C11/run: a rejected or failing plan writes nothing")
 		return
 	}
-	zzAssert(p.Validate() == nil, "C11/run: only valid documents are applied")
+	zzAssert(zzPlanLocallyValid(p) && !zzPlanCyclic(p), "C11/run: only valid documents are applied")
 	g2, perr := zzPost()
 	zzAssert(perr == nil, "C11/run: store replays after plan")
 	if perr != nil {
@@ -174,4 +198,5 @@ func zzC11Run(spec string) {
 	}
 }
 
-func zzC11_Run_T2() { zzC11Run("2;Tasks=2;After=2") }
+func zzC11_Run_T2() { zzC11Run("2;Tasks=2;After=1") }
+func zzC11_Run_T2A2() { zzC11Run("2;Tasks=2;After=2") }
